@@ -70,10 +70,21 @@ def extension_schemas():
     return out
 
 
+def huge_number_schemas():
+    """number (not integer) bounds far outside the integer types, integral and fractional, in every keyword: the literals the templates print must stay
+    well-typed Go (comparison operands and the arguments of the error messages)"""
+    out = []
+    for v in (1e19, 18446744073709551615, 1.7976931348623157e308, -1e30, 1e-30, 9007199254740993, -9223372036854775809, 123456789012345678901234567890):
+        for kw in ("minimum", "maximum", "exclusiveMinimum", "exclusiveMaximum"):
+            out.append({"type": "object", "properties": {"total": {"type": "number", kw: v}, "opt": {"type": ["number", "null"], kw: v}}, "required": ["total"]})
+        out.append({"type": "object", "$defs": {"Big": {"type": "number", "minimum": -abs(v), "maximum": abs(v)}}, "properties": {"b": {"$ref": "#/$defs/Big"}, "l": {"type": "array", "items": {"$ref": "#/$defs/Big"}}}})
+    return out
+
+
 def run(ctx):
     ctx.proof_step(PROPS_FILE)
     rng = ctx.rng
-    schemas = [("extension-types", s) for s in extension_schemas()]
+    schemas = [("extension-types", s) for s in extension_schemas()] + [("huge-number-bounds", s) for s in huge_number_schemas()]
     for fam, lst in (("strings", c06.systematic()[::5]), ("numbers", c05.e2e_systematic(ctx)[::9] + c05.e2e_fractional()[::4]), ("arrays", c07.systematic()[::6]),
                      ("enums", c08.systematic()[::4]), ("defaults", [x[0] for x in c09.systematic()[::6]]), ("special", c12.SPECIAL)):
         schemas += [(fam, s) for s in lst]
